@@ -674,6 +674,23 @@ def gen_conv_program(rng, path, nprocs=1, fmt=None):
                 cuts = sorted(set([0, n] + [rng.range(1, n - 1) for _ in range(rng.range(1, 2))]))
                 segs = [(cuts[i], cuts[i + 1] - cuts[i]) for i in range(len(cuts) - 1)]
                 order = rng.shuffle(list(range(len(segs))))
+                # FRESH values (seed C09-5: a varn put that drops its in-range elements on NC_ERANGE is invisible when it
+                # re-writes what the vara put before it already stored): same candidate set, drawn again, and at least
+                # one in-range element that differs from what is stored
+                vals_prev = list(vals)
+                vals = []
+                for k in range(n):
+                    if v.xt in XRANGE:
+                        xlo, xhi = XRANGE[v.xt]
+                        cands = [xlo, xhi, xlo - 1, xhi + 1, 0, 1, -1, 100, xhi - 1, xlo + 1, 200, -200, 128, 255, 256, 70000, -70000, 3, 7, 11]
+                    else:
+                        cands = [0, 1, -1, 100, -100, 1000, 16777216, -16777216, 65535, 255, 3, 7, 11]
+                    cands = [c for c in cands if mlo <= c <= mhi]
+                    vals.append(rng.choice(cands))
+                for k in range(n):
+                    if vals[k] == vals_prev[k] and mlo <= 5 <= mhi:
+                        vals[k] = 5
+                        break
                 vv = []
                 for o in order:
                     vv += vals[segs[o][0]:segs[o][0] + segs[o][1]]
